@@ -36,6 +36,35 @@ func (ex *Exec) splitGoal(g *Term, hyps []*Term, out *[]subgoal) {
 			}
 			ex.splitGoal(g.Args[0].Subst(m), hyps, out)
 			return
+		case "or":
+			// A \/ B with one structured disjunct: prove B under ~A
+			var big []*Term
+			var small []*Term
+			for _, a := range g.Args {
+				if hasQuantStrict(a) || (!a.IsSym && (a.Op == "and" || a.Op == "=>")) {
+					big = append(big, a)
+				} else {
+					small = append(small, a)
+				}
+			}
+			if len(big) == 1 && len(small) > 0 {
+				h2 := append([]*Term{}, hyps...)
+				for _, a := range small {
+					h2 = append(h2, Not(a))
+				}
+				ex.splitGoal(big[0], h2, out)
+				return
+			}
+		case "=":
+			// extensionality: an array equality is proved at a fresh index, which
+			// also gives the instantiation machinery its witness
+			if len(g.Args) == 2 && g.Args[0].S.IsArr() {
+				if ks, _ := g.Args[0].S.ArrParts(); ks == SInt {
+					k := ex.D.Fresh("sk.ext", SInt)
+					ex.splitGoal(Eq(Select(g.Args[0], k), Select(g.Args[1], k)), hyps, out)
+					return
+				}
+			}
 		case "ite":
 			if g.S == SBool {
 				h1 := append(append([]*Term{}, hyps...), g.Args[0])
@@ -114,6 +143,8 @@ type dbAxiom struct {
 
 // dbAxioms translates the axioms (and proved lemmas) of the spec database.
 func (ex *Exec) dbAxioms() []dbAxiom {
+	ex.axMu.Lock()
+	defer ex.axMu.Unlock()
 	if ex.dbAx != nil {
 		return ex.dbAx
 	}
@@ -184,7 +215,9 @@ func (ex *Exec) collectAsserts(o *Obligation, sg subgoal, exclude string) (asser
 				included[i] = true
 				extra = append(extra, a.term)
 				collect([]*Term{a.term})
+				ex.axMu.Lock()
 				ex.usedAx[a.name] = true
+				ex.axMu.Unlock()
 				changed = true
 			}
 		}
@@ -199,13 +232,14 @@ func (ex *Exec) buildQuery(o *Obligation, sg subgoal, exclude string, values []*
 
 // pairInstances: whether two-variable quantifiers are pre-instantiated too
 // (used for the second "light" attempt only: it makes queries much larger).
-var pairInstances = false
 
 // buildQueryMode: with light set, hypotheses that contain quantifiers are
 // replaced by their pre-instantiated instances only. A light query that is
 // unsat discharges the obligation (it uses fewer hypotheses); anything else
 // is inconclusive and the full query is tried.
-func (ex *Exec) buildQueryMode(o *Obligation, sg subgoal, exclude string, values []*Term, light bool) string {
+func (ex *Exec) buildQueryMode(o *Obligation, sg subgoal, exclude string, values []*Term, light bool, pairs ...bool) string {
+	withPairs := len(pairs) > 0 && pairs[0]
+	tiny := len(pairs) > 1 && pairs[1]
 	asserts, neg, extra := ex.collectAsserts(o, sg, exclude)
 	all := append(append(append([]*Term{}, asserts...), extra...), neg)
 	used := map[string]bool{}
@@ -236,7 +270,7 @@ func (ex *Exec) buildQueryMode(o *Obligation, sg subgoal, exclude string, values
 		}
 	}
 	focus := append(append([]*Term{}, sg.hyps...), neg)
-	insts := preInstantiate(ex.D, append(append([]*Term{}, asserts...), extra...), focus, pairInstances, o.Hints)
+	insts := preInstantiate(ex.D, append(append([]*Term{}, asserts...), extra...), focus, withPairs, o.Hints, tiny)
 	var instDecl strings.Builder
 	ex.D.EmitFor(&instDecl, insts)
 	// only declarations not emitted yet
@@ -253,6 +287,12 @@ func (ex *Exec) buildQueryMode(o *Obligation, sg subgoal, exclude string, values
 	}
 	for _, a := range asserts {
 		if light && hasQuantStrict(a) {
+			// keep the quantifier-free conjuncts of a mixed hypothesis
+			if w := qfWeaken(a); w != True {
+				sb.WriteString("(assert ")
+				sb.WriteString(w.String())
+				sb.WriteString(")\n")
+			}
 			continue
 		}
 		sb.WriteString("(assert ")
@@ -387,4 +427,29 @@ func coneOfInfluence(pool []*Term, seed []*Term) []*Term {
 		}
 	}
 	return out
+}
+
+// qfWeaken returns a quantifier-free formula implied by t (quantified parts
+// in positive positions become true).
+func qfWeaken(t *Term) *Term {
+	if !hasQuantStrict(t) {
+		return t
+	}
+	if t.IsSym {
+		return True
+	}
+	switch t.Op {
+	case "and":
+		var as []*Term
+		for _, a := range t.Args {
+			as = append(as, qfWeaken(a))
+		}
+		return And(as...)
+	case "=>":
+		if hasQuantStrict(t.Args[0]) {
+			return True
+		}
+		return Imp(t.Args[0], qfWeaken(t.Args[1]))
+	}
+	return True
 }
